@@ -60,8 +60,6 @@ DirsRec == {"a"}
 FiltersRec == {NoFilter}
 LimitsRec == {10}
 FileEs == {"file", "es"}
-(* the record configuration stores once into the empty store *)
-OnlyIntoEmpty == act'.op = "Store" => (dirs = {} /\ es = {})
 
 \* ---- simulation: wider alphabets
 RacesSim ==
